@@ -363,14 +363,33 @@ func (cp *CollectingProcess) decodeDataSet(dataBuffer *bytes.Buffer, obsDomainID
 		return nil, err
 	}
 
-	for dataBuffer.Len() > 0 {
+	// A data record cannot be shorter than minRecordLen (variable-length fields take at
+	// least one byte). Trailing bytes shorter than that are padding (RFC 7011, section 3.3.1).
+	minRecordLen := 0
+	for _, ie := range template {
+		if ie.Len == entities.VariableLength {
+			minRecordLen++
+		} else {
+			minRecordLen += int(ie.Len)
+		}
+	}
+	if minRecordLen == 0 && dataBuffer.Len() > 0 {
+		return nil, fmt.Errorf("template %d with obsDomainID %d defines zero-length records, cannot decode data set", templateID, obsDomainID)
+	}
+	for minRecordLen > 0 && dataBuffer.Len() >= minRecordLen {
 		elements := make([]entities.InfoElementWithValue, 0, len(template)+cp.numExtraElements)
 		for _, ie := range template {
 			var length int
 			if ie.Len == entities.VariableLength { // string / octet array
-				length = getFieldLength(dataBuffer)
+				length, err = getFieldLength(dataBuffer)
+				if err != nil {
+					return nil, err
+				}
 			} else {
 				length = int(ie.Len)
+			}
+			if dataBuffer.Len() < length {
+				return nil, fmt.Errorf("data record is truncated: field of length %d but only %d bytes left", length, dataBuffer.Len())
 			}
 			element, err := entities.DecodeAndCreateInfoElementWithValue(ie, dataBuffer.Next(length))
 			if err != nil {
@@ -505,12 +524,17 @@ func getMessageLength(reader *bufio.Reader) (int, error) {
 
 // getFieldLength returns string field length for data record
 // (encoding reference: https://tools.ietf.org/html/rfc7011#appendix-A.5)
-func getFieldLength(dataBuffer *bytes.Buffer) int {
-	oneByte, _ := dataBuffer.ReadByte()
+func getFieldLength(dataBuffer *bytes.Buffer) (int, error) {
+	oneByte, err := dataBuffer.ReadByte()
+	if err != nil {
+		return 0, fmt.Errorf("cannot read length of variable-length field: %v", err)
+	}
 	if oneByte < 255 { // string length is less than 255
-		return int(oneByte)
+		return int(oneByte), nil
 	}
 	var lengthTwoBytes uint16
-	util.Decode(dataBuffer, binary.BigEndian, &lengthTwoBytes)
-	return int(lengthTwoBytes)
+	if err := util.Decode(dataBuffer, binary.BigEndian, &lengthTwoBytes); err != nil {
+		return 0, fmt.Errorf("cannot read length of variable-length field: %v", err)
+	}
+	return int(lengthTwoBytes), nil
 }
